@@ -201,7 +201,7 @@ def nontrivial_C03(sc, obs):
 
 
 # ------------------------------------------------------------------ C04
-K_C04 = dict(cb_writes=0.04, late_allow=0.3, exc_classes=0.45, attr_guards=0.2, prop_guards=0.8, user_tna=0.35, base_exc=0.3, stop_iter=0.35, hosted=0.1, sends=0.3, send_budget=8, cbs=0.5, conv=0.2, validators=0.3, guards=0.4, rtc_false=0.25,
+K_C04 = dict(self_loop=0.4, internal=0.7, cb_writes=0.04, late_allow=0.3, exc_classes=0.45, attr_guards=0.2, prop_guards=0.8, user_tna=0.35, base_exc=0.3, stop_iter=0.35, hosted=0.1, sends=0.3, send_budget=8, cbs=0.5, conv=0.2, validators=0.3, guards=0.4, rtc_false=0.25,
              p_async=0.3, ops=(2, 5), raises=0.0, guard_raise=0.0, multi_prov=0.15)
 
 
@@ -279,7 +279,8 @@ def nontrivial_C14(sc, obs):
 
 
 SPECS = {
-    "C01": dict(knobs=K_C01, nontrivial=nontrivial_C01, n=(2200, 40000), post=post_C01),
+    "C01": dict(knobs=K_C01, nontrivial=nontrivial_C01, n=(2200, 40000), post=post_C01,
+                probes=[{"probe": "expr_candidates", "seed": 1000 + k_, "rtc": k_ % 2 == 0} for k_ in range(12)]),
     "C02": dict(knobs=K_C02, nontrivial=nontrivial_C02, n=(1800, 30000), late=0.3, overlap=True, extra=extra_C02, post=post_C02,
                 probes=[{"probe": "same_class_listener", "with_listener": True},
                         {"probe": "same_class_listener", "with_listener": False}]),
@@ -684,7 +685,62 @@ def probe_default_model_custom_field(sc):
     return {"probe": sc["probe"], "bad": bad}
 
 
-PROBES = {"default_model_custom_field": probe_default_model_custom_field, "state_named_like_callback": probe_state_named_like_callback, "mixin_cooperative_init": probe_mixin_cooperative_init, "expr_guard_raises": probe_expr_guard_raises, "add_listener_in_callback": probe_add_listener_in_callback, "same_class_listener": probe_same_class_listener, "event_name_callback": probe_event_name_callback,
+def probe_expr_candidates(sc):
+    """C01: two candidates for one event, the first guarded by a boolean / comparison expression over attributes of
+    the model (chains of three and more operands, `or` / `and` used for their VALUE inside a comparison): the first
+    candidate fires exactly when Python evaluates the expression truthy, else the second one; rtc on/off"""
+    import random
+    import warnings
+    from statemachine import State, StateMachine
+    rng = random.Random(sc["seed"])
+    names = ["qa", "qb", "qc", "qd"]
+    shapes = ["{0} and {1} and {2}", "{0} or {1} or {2}", "{0} or {1} and {2} or {3}", "{0} and {1} or {2} and {3}",
+              "({0} or {1}) > {2}", "({0} and {1}) == {2}", "({0} or {1}) >= ({2} or {3})", "not {0} or {1} and {2}",
+              "{0} and {1} and {2} and {3}", "{0} or {1} or {2} or {3}", "({0} or {1} or {2}) < {3}"]
+    bad = []
+    for _ in range(6):
+        text = rng.choice(shapes).format(*rng.sample(names, 4))
+        lib_text = text
+        if rng.random() < 0.3:
+            lib_text = text.replace(" and ", " ^ ")          # the library's own spelling of `and`
+
+        class M(StateMachine):
+            s0 = State(initial=True)
+            s1 = State()
+            s2 = State()
+            go = s0.to(s1, cond=lib_text) | s0.to(s2)
+            back = s1.to(s0) | s2.to(s0)
+
+        class Mdl:
+            state = None
+        with warnings.catch_warnings():
+            warnings.simplefilter("ignore")
+            mdl = Mdl()
+            for n_ in names:
+                setattr(mdl, n_, 0)
+            try:
+                sm = M(mdl, rtc=sc["rtc"])
+            except Exception as e:  # noqa: BLE001
+                bad.append(f"{lib_text!r}: {e!r}")
+                continue
+            for _v in range(8):
+                vals = {n_: rng.choice([0, 1, 2, 3, True, False]) for n_ in names}
+                for n_, v_ in vals.items():
+                    setattr(mdl, n_, v_)
+                want = "s1" if eval(text, {"__builtins__": {}}, dict(vals)) else "s2"  # noqa: S307
+                try:
+                    sm.send("go")
+                    got = sm.current_state.id
+                    sm.send("back")
+                except Exception as e:  # noqa: BLE001
+                    got = repr(e)
+                if got != want:
+                    bad.append(f"cond={lib_text!r} with {vals}: reached {got}, expected {want}")
+                    break
+    return {"probe": sc["probe"], "bad": bad[:3]}
+
+
+PROBES = {"expr_candidates": probe_expr_candidates, "default_model_custom_field": probe_default_model_custom_field, "state_named_like_callback": probe_state_named_like_callback, "mixin_cooperative_init": probe_mixin_cooperative_init, "expr_guard_raises": probe_expr_guard_raises, "add_listener_in_callback": probe_add_listener_in_callback, "same_class_listener": probe_same_class_listener, "event_name_callback": probe_event_name_callback,
           "threads_overlap": probe_threads_overlap}
 
 
